@@ -139,6 +139,31 @@ func (w *atomWalker) exprMarks(st lockState, e ast.Expr, kind string) {
 	})
 }
 
+// atomicOpName: atomic.AddInt32 / AddInt64 / AddUint32 … are all "atomic.Add"
+func atomicOpName(name string) string {
+	for _, op := range []string{"CompareAndSwap", "Add", "Load", "Store", "Swap"} {
+		if strings.HasPrefix(name, "atomic."+op) {
+			return "atomic." + op
+		}
+	}
+	return name
+}
+
+// isAtomicField: `recv.f` where f is a field of a sync/atomic type in the receiver's struct
+func (w *atomWalker) isAtomicField(e ast.Expr) bool {
+	se, ok := e.(*ast.SelectorExpr)
+	if !ok {
+		return false
+	}
+	if id, ok := se.X.(*ast.Ident); !ok || id.Name != w.recv {
+		return false
+	}
+	if w.pi == nil {
+		return false
+	}
+	return w.pi.atomicFields[w.recvType+"."+se.Sel.Name]
+}
+
 func (w *atomWalker) callMark(st lockState, c *ast.CallExpr) {
 	name := selString(c.Fun)
 	if id, ok := c.Fun.(*ast.Ident); ok && id.Name == "delete" && len(c.Args) > 0 {
@@ -158,8 +183,26 @@ func (w *atomWalker) callMark(st lockState, c *ast.CallExpr) {
 				sign = "+"
 			}
 		}
-		w.mark(st, "call:"+name+"("+selString(arg)+sign+")")
+		w.mark(st, "call:"+atomicOpName(name)+"("+selString(arg)+sign+")")
 		return
+	}
+	// the typed form of the same operations: `x.count.Add(1)` for `atomic.AddInt32(&x.count, 1)`
+	if se, ok := c.Fun.(*ast.SelectorExpr); ok {
+		switch se.Sel.Name {
+		case "Add", "Load", "Store", "CompareAndSwap", "Swap":
+			if base := selString(se.X); strings.Contains(base, ".") && !strings.HasPrefix(base, "atomic.") && w.isAtomicField(se.X) {
+				sign := ""
+				if se.Sel.Name == "Add" && len(c.Args) == 1 {
+					if u, ok := c.Args[0].(*ast.UnaryExpr); ok && u.Op == token.SUB {
+						sign = "-"
+					} else {
+						sign = "+"
+					}
+				}
+				w.mark(st, "call:atomic."+se.Sel.Name+"("+base+sign+")")
+				return
+			}
+		}
 	}
 	if name == "?" || strings.HasPrefix(name, "log.") || strings.HasPrefix(name, "fmt.") || strings.HasPrefix(name, "errors.") {
 		return
@@ -294,7 +337,7 @@ func (w *atomWalker) stmt(st lockState, s ast.Stmt) lockState {
 			return st
 		}
 		// remember what is deferred (the order of defers matters for what runs last)
-		sub := &atomWalker{fn: w.fn, recv: w.recv, recvType: w.recvType, pairs: map[[2]string]string{}, acquires: map[string]bool{}}
+		sub := &atomWalker{pi: w.pi, fn: w.fn, recv: w.recv, recvType: w.recvType, pairs: map[[2]string]string{}, acquires: map[string]bool{}}
 		sub.callMark(lockState{}, t.Call)
 		for _, m := range sub.marks {
 			w.mark(st, "defer:"+strings.TrimPrefix(m.what, "call:"))
@@ -438,8 +481,8 @@ var atomMkCtor = map[string]string{
 	"client|set:$.shutdown": ".setShutdown", "client|set:$.closing": ".setClosing",
 	"client|call:$.Plugins.DoClientConnectionClose": ".pluginClose", "client|call:$.handleServerRequest": ".noticeToChan",
 	"server|call:$.ln.Close": ".lnClose", "server|range:$.activeConn": ".rangeActive", "server|delete:$.activeConn": ".deleteActive",
-	"server|call:$.closeDoneChanLocked": ".closeDone", "server|call:atomic.AddInt32($.handlerMsgNum+)": ".countInc",
-	"server|defer:atomic.AddInt32($.handlerMsgNum-)": ".countDecDeferred", "server|call:$.sendResponse": ".sendResponse",
+	"server|call:$.closeDoneChanLocked": ".closeDone", "server|call:atomic.Add($.handlerMsgNum+)": ".countInc",
+	"server|defer:atomic.Add($.handlerMsgNum-)": ".countDecDeferred", "server|call:$.sendResponse": ".sendResponse",
 	"server|call:$.handleRequest": ".handleRequest", "server|call:handler": ".routerHandler", "server|call:sctx.WriteError": ".writeError",
 	"server|call:$.closeHTTP1APIGateway": ".gatewayClose",
 }
